@@ -207,7 +207,12 @@ func cmdCheck(args []string) {
 		req := map[string]interface{}{"obligation": "", "func": b.Func, "seed": seed, "budget": 300}
 		out, text, err := runHarness(h, req, "bounded-"+sanitize(b.Name))
 		if err != nil {
+			// a stand-in that cannot run has checked nothing: reported, never passed over silently
 			b.Violation = "harness error: " + err.Error() + " " + text
+			violations++
+			path := filepath.Join(replayDir, fmt.Sprintf("%s-bounded-%s.json", *prop, sanitize(b.Name)))
+			writeJSON(path, map[string]interface{}{"property": *prop, "obligation": "bounded:" + b.Name, "replay": "the bounded stand-in could not be run", "harness_output": b.Violation})
+			fmt.Printf("VIOLATION property=%s replay=%s no-failing-input-found\n", *prop, path)
 			continue
 		}
 		if n, ok := out["tried"].(float64); ok {
